@@ -933,6 +933,12 @@ impl<'a, M: Manager> Node<'a, M> {
         ensures r == (self is Terminal && self->Terminal_0.tview() == terminal.tview())
     { unimplemented!() }
 }
+impl<'a, M: Manager> Node<'a, M> where M::InnerNode: HasLevel {
+    /// `Node::level()` of oxidd-core: the level of an inner node, `LevelNo::MAX` for terminals
+    pub fn level(self) -> (r: LevelNo)
+        ensures r == (match self { Node::Inner(node) => node.level_spec(), Node::Terminal(_) => u32::MAX })
+    { match self { Node::Inner(node) => node.level(), Node::Terminal(_) => LevelNo::MAX } }
+}
 /// stub of fixedbitset::FixedBitSet (only `contains` is used by verified code)
 pub struct FixedBitSet { pub bits: Vec<bool> }
 impl FixedBitSet {
@@ -2146,6 +2152,31 @@ where M: Manager<Terminal = BDDTerminal> + HasApplyCache<M, BDDOp>, M::InnerNode
     ensures eval_post(edge.view(), args.all(), vl(manager), manager.num_levels_spec(), r),
 //@end
 } // mod apply_rec_e
+mod dddmp_import {
+use super::*;
+broadcast use leaf_lemmas;
+// ---------- oxidd-dump, import_ascii: the per-child validity check of a node line (C15 "child-id/level checks per node", C03) ----------
+/// stub of std::io::Error / the crate's `err` helper / `format!` (R21): only "an error is returned" matters
+pub struct IoError;
+#[verifier::external_body]
+pub fn fmt_msg() -> (r: String) { unimplemented!() }
+pub fn err<T>(msg: String) -> (r: Result<T, IoError>) ensures r is Err { Err(IoError) }
+pub assume_specification [isize::unsigned_abs] (x: isize) -> (r: usize)
+    ensures r as int == (if x < 0 { -(x as int) } else { x as int });
+// the body of `for &child in &children { .. }` (rule R16): after it returns Ok the child id is a node read earlier and lies strictly
+// below the new node's level - exactly what `reduce(..).then_insert(..)` needs for an ordered diagram; no panic (index in range)
+//@fn file=crates/oxidd-dump/src/dddmp/import.rs path=fn:import_ascii loopbody=1 looppat=&child rename=import_ascii__child_check tail=Ok(()) fmtstub ret=r props=C03,C15
+//@header
+fn import_ascii__child_check<M>(manager: &M, nodes: &Vec<M::Edge>, child: isize, node_id: usize, level: LevelNo, line_no: usize) -> (r: Result<(), IoError>)
+where M: Manager<Terminal = BDDTerminal>, M::InnerNode: HasLevel,
+//@spec
+    requires node_id >= 1, nodes@.len() == node_id - 1, child != 0,
+    ensures r is Ok ==> ({
+        let c = if child < 0 { -(child as int) } else { child as int };
+        1 <= c < node_id && (level as int) < top(nodes@[c - 1].view())
+    }),
+//@end
+} // mod dddmp_import
 mod apply_rec_u {
 use super::*;
 use super::apply_rec::*;
